@@ -758,6 +758,23 @@ impl Machine {
                 o["bytes"] = json!([jbytes(&bytes)]);
                 Ok(o)
             }
+            "focus" => {
+                let i = e["i"].as_u64().unwrap_or(0) as usize;
+                let obj = std::mem::replace(&mut self.mem, Obj::None);
+                let oob = || "focus: index out of range (harness)".to_string();
+                self.mem = match (s(e, "f")?, obj) {
+                    ("recip", Obj::Encrypt(x)) => Obj::Recipient(x.recipients.get(i).cloned().ok_or_else(oob)?),
+                    ("recip", Obj::Mac(x)) => Obj::Recipient(x.recipients.get(i).cloned().ok_or_else(oob)?),
+                    ("recip", Obj::Recipient(x)) => Obj::Recipient(x.recipients.get(i).cloned().ok_or_else(oob)?),
+                    ("sig", Obj::Sign(x)) => Obj::Signature(x.signatures.get(i).cloned().ok_or_else(oob)?),
+                    ("cs-unprot", Obj::Sign1(x)) => Obj::Signature(x.unprotected.counter_signatures.get(i).cloned().ok_or_else(oob)?),
+                    ("cs-prot", Obj::Sign1(x)) => Obj::Signature(x.protected.header.counter_signatures.get(i).cloned().ok_or_else(oob)?),
+                    ("prot", Obj::SuppPub(x)) => Obj::Prot(x.protected),
+                    ("prot", Obj::Sign1(x)) => Obj::Prot(x.protected),
+                    (f, _) => return Err(format!("focus {}: wrong object", f)),
+                };
+                Ok(obs_base())
+            }
             "canonicalize" => {
                 let ord = match s(e, "ord")? {
                     "Lexicographic" => CborOrdering::Lexicographic,
